@@ -219,37 +219,78 @@ def run_c08(ctx, chk):
 
 
 def copyall_charopts(ctx, chk):
-    """clone_with_data copies every rendition field from self and takes only the text from its argument"""
+    """the helper that builds a cell from a rendition and a text (`clone_with_data` at the pinned commit; found
+    by its signature `(&CharOpts, String) -> CharOpts`, not by its name) copies every rendition field from
+    self and takes only the text from its argument.  Without such a helper the same is decided at each cell
+    store of draw: every rendition field of the stored cell is the cursor's"""
     prog = ctx.prog
-    f = 'screen::CharOpts::clone_with_data'
-    if f not in prog.bodies:
-        chk.instance('R-COPYALL', short(f), 'exists', False, what='clone_with_data not found', undischarged=True)
-        return
-    eng = Engine(prog, ctx.eff, config=dict(max_steps=20000, check_inv=False))
-    st = State()
-    fields = {k: StrV('mark-' + k) for k in ('fg', 'bg')}
-    for i, k in enumerate(('bold', 'italics', 'underscore', 'strikethrough', 'reverse', 'blink')):
-        fields[k] = BoolV(None, ('fact', ('mark', k)))
-    fields['data'] = StrV('old')
-    root = ('H', 'co')
-    st.store[root] = StructV('screen::CharOpts', fields)
-    res = eng.exec_body(st, f, [RefV((root, ())), StrV('new')])
-    bad = []
-    for (s2, ret) in res:
-        if not isinstance(ret, StructV):
-            bad.append('no struct returned')
+    cands = []
+    for f, b in sorted(prog.bodies.items()):
+        if b.kind == 'closure' or b.arg_count != 2:
             continue
-        for k, v in fields.items():
-            r = ret.fields.get(k)
-            if k == 'data':
-                if not (isinstance(r, StrV) and r.known == 'new'):
-                    bad.append('text is %r' % (r,))
-            elif r is None or r.key() != v.key():
-                bad.append('field %s is %r, not the source field' % (k, r))
-    adt = prog.adts.get('screen::CharOpts')
-    nf = len(adt['variants'][0]['fields']) if adt else 0
-    chk.instance('R-COPYALL', short(f), 'all %d fields: text from the argument, every other field from self' % nf, bool(res) and not bad and nf == len(fields),
-                 detail='; '.join(bad) or 'checked with distinct markers', span=prog.bodies[f].span, what='clone_with_data: ' + ('; '.join(bad) or 'CharOpts has %d fields, rule knows %d' % (nf, len(fields))))
+        tys = [b.locals[i]['ty'] for i in (0, 1, 2)]
+        if tys[0] == 'screen::CharOpts' and tys[1] in ('&screen::CharOpts', '&mut screen::CharOpts') and tys[2] == 'std::string::String':
+            cands.append(f)
+    if not cands:
+        draw_stores_carry_rendition(ctx, chk)
+        return
+    for f in cands:
+        eng = Engine(prog, ctx.eff, config=dict(max_steps=20000, check_inv=False))
+        st = State()
+        fields = {k: StrV('mark-' + k) for k in ('fg', 'bg')}
+        for i, k in enumerate(('bold', 'italics', 'underscore', 'strikethrough', 'reverse', 'blink')):
+            fields[k] = BoolV(None, ('fact', ('mark', k)))
+        fields['data'] = StrV('old')
+        root = ('H', 'co')
+        st.store[root] = StructV('screen::CharOpts', fields)
+        res = eng.exec_body(st, f, [RefV((root, ())), StrV('new')])
+        bad = []
+        for (s2, ret) in res:
+            if not isinstance(ret, StructV):
+                bad.append('no struct returned')
+                continue
+            for k, v in fields.items():
+                r = ret.fields.get(k)
+                if k == 'data':
+                    if not (isinstance(r, StrV) and r.known == 'new'):
+                        bad.append('text is %r' % (r,))
+                elif r is None or r.key() != v.key():
+                    bad.append('field %s is %r, not the source field' % (k, r))
+        adt = prog.adts.get('screen::CharOpts')
+        nf = len(adt['variants'][0]['fields']) if adt else 0
+        chk.instance('R-COPYALL', short(f), 'all %d fields: text from the argument, every other field from self' % nf, bool(res) and not bad and nf == len(fields),
+                     detail='; '.join(bad) or 'checked with distinct markers', span=prog.bodies[f].span,
+                     what='%s: ' % short(f) + ('; '.join(bad) or 'CharOpts has %d fields, rule knows %d' % (nf, len(fields))))
+
+
+def draw_stores_carry_rendition(ctx, chk):
+    """every cell draw stores (not the cells ICH moves for it, not a materialised blank) has the cursor's rendition in every field"""
+    from .rules_screen import closures_of
+    sr = ctx.screen_run()
+    eng = sr['engine']
+    prog = ctx.prog
+    draw = ep('draw')
+    funcs = closures_of(ctx, {draw})
+    agg = {}
+    for e in sr['events']:
+        ev = e['ev']
+        if e['func'] not in funcs or e['ep'] != draw or ev[0] != 'map.insert' or g.level_of(e) != 'cell':
+            continue
+        if not g.own_stack(prog, e.get('stack') or (), draw) or g.is_materialising_insert(eng, e):
+            continue
+        st = e['st']
+        v = ev[3]
+        cur = get(eng, st, 'cursor', 'attr')
+        ok = isinstance(v, StructV) and isinstance(cur, StructV) and all(
+            v.fields.get(k_) is not None and cur.fields.get(k_) is not None and g.same_value(eng, st, v.fields[k_], cur.fields[k_])
+            for k_ in ('fg', 'bg') + g.FLAGS)
+        k = (short(draw), 'cell store @%s carries the cursor rendition in all 8 fields' % site_ord(prog, e))
+        a = agg.setdefault(k, dict(ok=True, span=e['span'], n=0))
+        a['n'] += 1
+        a['ok'] = a['ok'] and ok
+    for (f, c), a in sorted(agg.items()):
+        chk.instance('R-COPYALL', f, c, a['ok'], detail='%d visits' % a['n'], span=a['span'], what='a cell drawn does not carry the cursor rendition in every field')
+    chk.floor('draw cell stores (rendition)', len(agg), 1)
 
 
 # ===========================================================================  C18
@@ -551,6 +592,9 @@ def run_c14(ctx, chk):
         for bi, t in prog.calls(b):
             nm = (t['func'].get('fn') or {}).get('path', '')
             if t['args'] and t['args'][0].get('k') in ('copy', 'move') and 'Vec<screen::Savepoint>' in t['args'][0]['place']['ty']:
+                aty = t['args'][0]['place']['ty']
+                if aty.startswith('&') and not aty.startswith('&mut '):
+                    continue         # through a shared reference the stack can only be read (len, clone, fmt, eq, ..)
                 who.setdefault(short(f), []).append(nm.split('::')[-1])
     allowed = {'Screen::save_cursor': {'push'}, 'Screen::restore_cursor': {'pop', 'len', 'is_empty'}, 'screen::Screen::new': {'new'}}
     bad = []
@@ -945,10 +989,15 @@ def run_c12(ctx, chk):
             continue
         chk.instance('R-CONST', 'modes::' + name, 'value', c['value'] == ref, nontrivial=False, detail='%r vs %r' % (c['value'], ref), span=c['span'],
                      what='mode constant %s is %r, documented %d' % (name, c['value'], ref))
-    eng0 = ctx.new_engine()
-    dm = plain(static_value(eng0, 'screen::_DEFAULT_MODE'))
-    chk.instance('R-TABLE', 'screen::_DEFAULT_MODE', 'set', dm is not None and sorted(dm) == sorted([DECAWM, DECTCEM]), detail=str(dm),
-                 what='power-on modes are %s, documented {DECAWM, DECTCEM}' % (dm,))
+    # the power-on mode set is what reset() leaves in `mode` (wherever the table it copies lives)
+    sr0 = ctx.screen_run()
+    dms = []
+    for r, st, ret in each_final(sr0, ep('reset')):
+        mv = get(sr0['engine'], st, 'mode')
+        dms.append(sorted(x.k for x in mv.known if isinstance(x, NumV) and x.sym is None) if isinstance(mv, CollV) and mv.known is not None
+                   and all(isinstance(x, NumV) and x.sym is None for x in mv.known) else None)
+    chk.instance('R-TABLE', 'Screen::reset', 'power-on mode set', bool(dms) and all(d == sorted([DECAWM, DECTCEM]) for d in dms), detail=str(dms[:2]),
+                 what='power-on modes are %s, documented {DECAWM, DECTCEM}' % (dms[:1],))
     # decision table over (number, private, set/reset)
     cases = []
     nums = (3, 4, 5, 6, 7, 20, 25, 1, 2, 9, 12, 1000, 2004, 9999, 96, 160, 192, 224, 800, 0)
